@@ -60,39 +60,44 @@ fn option_copied(o: Option<&(usize, usize, usize)>) -> (r: Option<(usize, usize,
 { o.copied() }
 
 // the parser as far as this unit is concerned: the innermost function being compiled, and whether an error is on record
-pub struct Parser { pub comp: Compiler, pub ghost had_error: bool }
+pub struct Parser { pub comp: Compiler, pub ghost had_error: bool,
+                    pub ghost own_pushes: int,   // PushExcHandler instructions emitted by the statement being compiled itself
+                    pub ghost own_pads: int }    // CloseUpvalue instructions emitted by it (the landing pad that drops the exception variable)
 
 impl Parser {
     pub open spec fn code(&self) -> Seq<u8> { self.comp.chunk.code@ }
     // nothing but diagnostics happens
-    pub open spec fn quiet(&self, o: &Parser) -> bool { self.comp == o.comp && (self.had_error ==> o.had_error) }
+    pub open spec fn quiet(&self, o: &Parser) -> bool { self.comp == o.comp && (self.had_error ==> o.had_error) && self.same_own(o) }
+    pub open spec fn same_own(&self, o: &Parser) -> bool { self.own_pushes == o.own_pushes && self.own_pads == o.own_pads }
     // code is appended / patched, handler bookkeeping untouched
-    pub open spec fn balanced(&self, o: &Parser) -> bool { self.comp.ctl() == o.comp.ctl() && (self.had_error ==> o.had_error) }
+    pub open spec fn balanced(&self, o: &Parser) -> bool { self.comp.ctl() == o.comp.ctl() && (self.had_error ==> o.had_error) && self.same_own(o) }
 
     // compiler.rs compiler() / compiler_mut() / chunk(): the innermost compiler and its chunk
     #[verifier::external_body]
     fn compiler(&self) -> (r: &Compiler) ensures *r == self.comp { unimplemented!() }
     #[verifier::external_body]
-    fn compiler_mut(&mut self) -> (r: &mut Compiler) ensures *r == old(self).comp, final(self).comp == *final(r), final(self).had_error == old(self).had_error { unimplemented!() }
+    fn compiler_mut(&mut self) -> (r: &mut Compiler) ensures *r == old(self).comp, final(self).comp == *final(r), final(self).had_error == old(self).had_error, old(self).same_own(final(self)) { unimplemented!() }
     #[verifier::external_body]
     fn chunk(&self) -> (r: &Chunk) ensures *r == self.comp.chunk { unimplemented!() }
 
     // ---- emitters (their byte-level contracts are proved in unit `compiler`; here: what they do to the handler model)
     #[verifier::external_body]
     fn emit_byte(&mut self, byte: u8)
-        ensures final(self).code() == old(self).code().push(byte), final(self).comp.hdepth == old(self).comp.hdepth + heffect(byte),
+        ensures final(self).own_pushes == old(self).own_pushes + (if byte == opcode_byte(OpCode::PushExcHandler) { 1int } else { 0int }),
+            final(self).own_pads == old(self).own_pads + (if byte == opcode_byte(OpCode::CloseUpvalue) { 1int } else { 0int }),
+            final(self).code() == old(self).code().push(byte), final(self).comp.hdepth == old(self).comp.hdepth + heffect(byte),
             final(self).comp.try_depth == old(self).comp.try_depth,
             final(self).comp.kind == old(self).comp.kind, final(self).comp.loop_stack == old(self).comp.loop_stack, final(self).had_error == old(self).had_error,
     { unimplemented!() }
     #[verifier::external_body]
     fn emit_bytes(&mut self, bytes: [u8; 2])
-        ensures final(self).code() == old(self).code().push(bytes[0]).push(bytes[1]), final(self).comp.hdepth == old(self).comp.hdepth + heffect(bytes[0]),
+        ensures old(self).same_own(final(self)), final(self).code() == old(self).code().push(bytes[0]).push(bytes[1]), final(self).comp.hdepth == old(self).comp.hdepth + heffect(bytes[0]),
             final(self).comp.try_depth == old(self).comp.try_depth,
             final(self).comp.kind == old(self).comp.kind, final(self).comp.loop_stack == old(self).comp.loop_stack, final(self).had_error == old(self).had_error,
     { unimplemented!() }
     #[verifier::external_body]
     fn emit_jump(&mut self, instruction: OpCode) -> (r: usize)
-        ensures final(self).code() == old(self).code().push(opcode_byte(instruction)).push(0xffu8).push(0xffu8),
+        ensures old(self).same_own(final(self)), final(self).code() == old(self).code().push(opcode_byte(instruction)).push(0xffu8).push(0xffu8),
             final(self).comp.hdepth == old(self).comp.hdepth + heffect(opcode_byte(instruction)),
             final(self).comp.try_depth == old(self).comp.try_depth,
             final(self).comp.kind == old(self).comp.kind, final(self).comp.loop_stack == old(self).comp.loop_stack, final(self).had_error == old(self).had_error,
@@ -125,11 +130,11 @@ impl Parser {
     #[verifier::external_body]
     fn match_token(&mut self, kind: TokenKind) -> bool ensures old(self).quiet(final(self)), final(self).had_error == old(self).had_error { unimplemented!() }
     #[verifier::external_body]
-    fn error(&mut self, message: &str) ensures final(self).comp == old(self).comp, final(self).had_error { unimplemented!() }
+    fn error(&mut self, message: &str) ensures final(self).comp == old(self).comp, final(self).had_error, old(self).same_own(final(self)) { unimplemented!() }
     #[verifier::external_body]
-    fn error_at_current(&mut self, message: &str) ensures final(self).comp == old(self).comp, final(self).had_error { unimplemented!() }
+    fn error_at_current(&mut self, message: &str) ensures final(self).comp == old(self).comp, final(self).had_error, old(self).same_own(final(self)) { unimplemented!() }
     #[verifier::external_body]
-    fn compiler_error(&mut self, error: CompilerError) ensures final(self).comp == old(self).comp, final(self).had_error { unimplemented!() }
+    fn compiler_error(&mut self, error: CompilerError) ensures final(self).comp == old(self).comp, final(self).had_error, old(self).same_own(final(self)) { unimplemented!() }
 
     // One `opcode` per try block between this point and try-nesting depth `outer_try_depth`.
     //@fn file=yarel/src/compiler.rs path=Parser::emit_try_exits
@@ -152,10 +157,11 @@ impl Parser {
     // caught by the catch block, exception passing through the finally block), the function's handler stack is as
     // deep afterwards as before, and a `return` parked by JumpFinally finds an EndFinally at the handler's finally
     // address (otherwise the parked return would never resume).
-    //@fn file=yarel/src/compiler.rs path=Parser::try_statement
+    //@fn file=yarel/src/compiler.rs path=Parser::try_statement props=C08,C04
     //@  rewrite R21
     //@  requires old(self).comp.coupled(), old(self).comp.try_depth < usize::MAX
     //@  ensures @handlers_balanced_after_try_statement final(self).had_error || final(self).comp.hdepth == old(self).comp.hdepth
+    //@  ensures @every_handler_installed_for_a_catch_block_has_a_landing_pad_that_drops_the_exception_variable final(self).had_error || final(self).own_pads - old(self).own_pads == final(self).own_pushes - old(self).own_pushes - 1
     //@  ensures @parked_return_resumes_at_end_finally final(self).had_error || final(self).code().last() == opcode_byte(OpCode::EndFinally)
     //@  ensures final(self).comp.try_depth == old(self).comp.try_depth, final(self).comp.loop_stack@ == old(self).comp.loop_stack@
     //@  assert @try_block_compiled_one_level_deeper before_stmt "self.compiler_mut().try_depth -= 1#1" self.comp.hdepth == old(self).comp.hdepth + 1 && self.comp.try_depth == old(self).comp.try_depth + 1
